@@ -376,6 +376,15 @@ def shot_noise(img, method='poisson', seed=None):
     """
     assert method in {'poisson', 'gaussian'}
 
+    # both methods reject signals outside the representable range up front
+    # (the Gaussian branch would otherwise return garbage for such pixels)
+    counts = np.asarray(img)
+    if counts.size > 0:
+        if np.min(counts) < 0:
+            raise ValueError('Counts must be positive')
+        if np.max(counts) > 9.223372006484771e+18:
+            raise ValueError('Counts exceed max representable value')
+
     rng = np.random.default_rng(seed)
 
     if method == 'poisson':
